@@ -623,6 +623,19 @@ func (p *Parser) parseInfixExpression(left ast.Expression) ast.Expression {
 
 	// hack
 	if expression.Operator == "." {
+
+		// The member is named by an identifier (or a literal); its
+		// text becomes the key.  Anything else would be reduced to
+		// its text too, without ever being compiled.
+		switch expression.Right.(type) {
+		case nil:
+		case *ast.Identifier, *ast.StringLiteral, *ast.IntegerLiteral, *ast.FloatLiteral, *ast.BooleanLiteral:
+		default:
+			msg := fmt.Sprintf("expected a member name after '.' but got %s around %s", expression.Right.String(), p.curToken.Position())
+			p.errors = append(p.errors, msg)
+			return nil
+		}
+
 		if expression.Right != nil && expression.Right.String() != "" {
 			name := expression.Right.String()
 			expression.Right = &ast.StringLiteral{Token: token.Token{Type: token.STRING, Literal: name}, Value: name}
